@@ -14,4 +14,5 @@ for P in "$@"; do
   rm -f /tmp/seedrun-$$-$P.out
 done
 git -C /repo worktree remove --force "$WT"
-rm -rf /verif/.build/*-alt* /verif/.build/harness-alt*
+TAG=$(printf %s "$WT" | sha256sum | cut -c1-8)
+rm -rf /verif/.build/*-alt$TAG
